@@ -55,7 +55,7 @@ CHECKS = {
    level="model_checking", design="DESIGN.md 6.4, 7 (C16)",
    technique="TLA+ spec Account.tla behaviours (TLC transition tour) replayed on LocalAccount; integrity report of the untampered account after every behaviour; single-bit corruption of every content region and removals enumerated on the final states (fault enumeration)",
    text="Soundness half: after every behaviour TLC enumerates from Account.tla (both backends), after every reload and every 7th step, account_integrity must report no failure. Completeness half: on the final state of selected behaviours one bit is flipped at the first/middle/last byte (thorough: every byte) of each secret row's encrypted content and stored checksum and of each event record's payload and hash (file system: offsets located by content; sqlite: blob columns), and the vault file / event log are removed; the report must then contain a failure for that folder.",
-   note="External file blobs (file_integrity) are not yet covered; regions are located by searching the stored bytes for the encoded entry/event, not by parsing the file format."),
+   note="External file blobs: two-blob file secrets are added on the final state of the selected behaviours, file_integrity must be clean, every sampled byte of every blob flipped and every blob removed one at a time must be reported for that file and no other. Regions of vault rows and event records are located by searching the stored bytes for the encoded entry/event, not by parsing the file format."),
  "C20": dict(
    level="model_checking", design="DESIGN.md 6.3/6.4, 7 (C20)",
    technique="TLA+ specs Account.tla and Sync.tla behaviours (TLC) replayed on LocalAccount / syncing devices; after every step the live search index is compared with the folders, with a recount and with an index rebuilt from scratch",
